@@ -20,8 +20,33 @@ PROPS = {
         "stub": ["allocator (sim::Alloc: malloc + ledger + injected bad_alloc)",
                  "reader callbacks and input ranges (sim reader: full, short, nothing, throwing)",
                  "the file behind std::istream for read_chars (sim::StreamBuf: chunked, failing refills)"],
+        "technique": "deterministic simulation with fault injection: seeded operation histories against a std::vector reference model, injected allocation failures and short/failing readers, allocation ledger, ASan/UBSan monitors, single-fault enumeration, minimised replay",
+        "level_text": "Seeded search over operation histories (up to 60 operations, 3 vectors + 2 buffers, three element types) with allocation failures and failing/short readers attached to individual operations; every step is compared with std::vector (contents, size, returned iterator offsets, capacity >= size), with an exact allocation ledger (leak, double free, size mismatch, capacity == block size) and ASan/UBSan. Sampling, not proof: the evidence states runs, faults fired and rare paths reached.",
+        "level_note": "Stubs: allocator (malloc + ledger + injected bad_alloc), reader callbacks/input ranges, the stream behind io::read_chars. Trusted: std::vector as the model, ASan/UBSan, the harness. Moved-from objects are only required to be valid.",
         "assumptions": ["moved-from objects are only required to be valid (their contents are read back, not predicted)",
                         "ranges inserted into a vector never alias the same vector (undefined for std::vector too)",
                         "after an injected failure the object may hold the before-state or the after-state (for input ranges: any prefix inserted)"],
+    },
+    "C09": {
+        "engines": [{
+            "id": "C09", "bin": "c09", "flavour": "asan",
+            "runs": {"quick": 150000, "thorough": 10000000},
+            "budget": {"quick": 40, "thorough": 900},
+            "enum_every": {"quick": 100, "thorough": 25},
+        }],
+        "rule": "One run = one generated operation history (1-40 operations) over a forest of up to 4 root "
+                "slots of tree::object<sim::Val>, operands chosen among all live nodes (roots and inner nodes); "
+                "allocation failures and element-copy failures are attached to individual operations in about "
+                "half of the runs. After every step the whole forest is compared with a recursive reference model "
+                "and the link invariant is checked on the real objects. Non-trivial = at least 3 effective operations.",
+        "real": REAL_COMMON + ["tree::object, pre_order, to_root, depth, level, child_position, map, comparison"],
+        "stub": ["global operator new/delete (tagging + injected bad_alloc)",
+                 "element type sim::Val (unique id, heap payload, copies fail on the simulator's order)"],
+        "technique": "deterministic simulation with fault injection: seeded operation histories over a forest against a recursive reference model, injected allocation and element-copy failures, link invariant after every step, heap/value leak ledger, ASan/UBSan monitors, single-fault enumeration, minimised replay",
+        "level_text": "Seeded search over operation histories (up to 40 operations, forest of up to 4 trees, operands among all live nodes) with allocation and element-copy failures attached to individual operations; after every step the link invariant (every child's parent() is the node listing it, roots have none) is checked on the real objects, shape/values/traversals (pre_order, to_root, depth, level, child_position, map, ==) are compared with a recursive model, ASan watches for stale links, a ledger for leaks. Sampling, not proof.",
+        "level_note": "Stubs: global operator new/delete (tagging + injected bad_alloc), element type sim::Val. Trusted: the recursive model, ASan/UBSan, the harness. Excluded by precondition: assignment/swap between a node and its own ancestor or descendant.",
+        "assumptions": ["assignment and swap between a node and its own ancestor/descendant are excluded (no meaning promised)",
+                        "moved-from roots are only required to be valid and childless; they are destroyed right away",
+                        "after an injected failure the touched trees may hold any state between before and after, but links must be consistent and nothing may leak"],
     },
 }
